@@ -19,9 +19,9 @@ theorem oth_data {bs : Nat} {mem M : Array Block} (oth : OthLe bs mem M) (bd : N
     exact ⟨blk.bytes, by rw [← hbase], hle.size_eq, ⟨by rw [hle.size_eq]; exact hd.1, fun k b hk => (hd.2 k b hk).lower hle⟩⟩
 
 /-- the key-loading phase: the first `j` key words are in place -/
-structure KI (g : AGeo) (M : Array Block) (nv : Nat) (kws : List UInt32) (env0 : Env) (j : Nat) (env : Env) (st : St) : Prop where
+structure KI (g : AGeo) (M : Array Block) (nv : Nat) (kws : List UInt32) (env0 : Env) (lim : Nat) (j : Nat) (env : Env) (st : St) : Prop where
   esz : env.size = nv
-  fr : ∀ y, y < 11 → env[y]? = env0[y]?
+  fr : ∀ y, y < lim → env[y]? = env0[y]?
   obj : ∃ X, st.mem[g.bs]? = some ⟨X, g.baseS⟩ ∧ X.size = 16 + 4 * g.nk ∧ ∀ i v, i < j → kws[i]? = some v → WV X (4 + i) v
   oth : OthLe g.bs st.mem M
   msz : st.mem.size = M.size
@@ -30,27 +30,27 @@ structure KI (g : AGeo) (M : Array Block) (nv : Nat) (kws : List UInt32) (env0 :
 /-- `state.k[j] = ~le_load_word32(k + 4j)` -/
 theorem key_word {g : AGeo} {M : Array Block} (dg : DGeo g M) {nv : Nat} {kws : List UInt32} {env0 : Env} (koff : Nat) (key : Bytes)
     (hd : BytesV dg.XD koff key) (hklen : key.length = 4 * g.nk) (hk : ∀ i, i < g.nk → kws[i]? = some (~~~ loadAt key (4 * i)))
-    (he8 : env0[8]? = some (mkPtr g.bs g.baseS, .pub)) (he7 : env0[7]? = some (mkPtr dg.bd (dg.based + koff), .pub))
-    (j : Nat) (hj : j < g.nk) (hnv : 11 + 5 * g.nk ≤ nv) {env : Env} {st : St} (ki : KI g M nv kws env0 j env st) :
-    RunsTo g.prog (keyWordStmt 8 11 j) env st (fun sig e' s' => sig = .normal ∧ KI g M nv kws env0 (j + 1) e' s') := by
+    {sv t0 : Nat} (hsv : sv < t0) (h7t : 7 < t0) (he8 : env0[sv]? = some (mkPtr g.bs g.baseS, .pub)) (he7 : env0[7]? = some (mkPtr dg.bd (dg.based + koff), .pub))
+    (j : Nat) (hj : j < g.nk) (hnv : t0 + 5 * g.nk ≤ nv) {env : Env} {st : St} (ki : KI g M nv kws env0 t0 j env st) :
+    RunsTo g.prog (keyWordStmt sv t0 j) env st (fun sig e' s' => sig = .normal ∧ KI g M nv kws env0 t0 (j + 1) e' s') := by
   obtain ⟨X, hm, hXs, hkw⟩ := ki.obj
   have hes := ki.esz; have hlt := g.hlt; have hal := g.hal
   obtain ⟨XD', hmd, hXDs, hd'⟩ := oth_data ki.oth dg.bd dg.hne dg.XD dg.based koff key dg.h0 hd
   unfold keyWordStmt
-  show RunsTo g.prog (.seq (.assign (11 + 5 * j) (.bin .add .u64 (.var 8) (.lit (16 + 4 * j))))
-    (seqs (loadsOf [(11 + 1 + 5 * j, 4 * j + 3), (11 + 2 + 5 * j, 4 * j + 2), (11 + 3 + 5 * j, 4 * j + 1), (11 + 4 + 5 * j, 4 * j)] 7 ++
-      [.store .u32 (.var (11 + 5 * j)) (.un .bnot .u32 (e32 (11 + 1 + 5 * j) (11 + 2 + 5 * j) (11 + 3 + 5 * j) (11 + 4 + 5 * j)))]))) env st _
-  have h8 : env[8]? = some (mkPtr g.bs g.baseS, .pub) := by rw [ki.fr 8 (by decide)]; exact he8
-  have h7 : env[7]? = some (mkPtr dg.bd (dg.based + koff), .pub) := by rw [ki.fr 7 (by decide)]; exact he7
-  refine runs_seq (Q := fun e s' => e = setVar env (11 + 5 * j) (mkPtr g.bs (g.baseS + (16 + 4 * j)), .pub) ∧ s' = st) (runs_assign _ (by
+  show RunsTo g.prog (.seq (.assign (t0 + 5 * j) (.bin .add .u64 (.var sv) (.lit (16 + 4 * j))))
+    (seqs (loadsOf [(t0 + 1 + 5 * j, 4 * j + 3), (t0 + 2 + 5 * j, 4 * j + 2), (t0 + 3 + 5 * j, 4 * j + 1), (t0 + 4 + 5 * j, 4 * j)] 7 ++
+      [.store .u32 (.var (t0 + 5 * j)) (.un .bnot .u32 (e32 (t0 + 1 + 5 * j) (t0 + 2 + 5 * j) (t0 + 3 + 5 * j) (t0 + 4 + 5 * j)))]))) env st _
+  have h8 : env[sv]? = some (mkPtr g.bs g.baseS, .pub) := by rw [ki.fr sv hsv]; exact he8
+  have h7 : env[7]? = some (mkPtr dg.bd (dg.based + koff), .pub) := by rw [ki.fr 7 h7t]; exact he7
+  refine runs_seq (Q := fun e s' => e = setVar env (t0 + 5 * j) (mkPtr g.bs (g.baseS + (16 + 4 * j)), .pub) ∧ s' = st) (runs_assign _ (by
     simp only [evalE, h8, reduceCtorEq, if_false, BinOp.needsPub2, BinOp.needsPub1, Bool.false_and, Bool.or_self, Bool.false_eq_true, binVal, Ty.modulus,
       Lab.join_pub_pub, ptr_off g.bs g.baseS (16 + 4 * j) g.hbs30 (by omega)]) ⟨rfl, rfl, rfl⟩) ?_
   intro e1 s1 ⟨he1, hs1⟩; rw [he1, hs1]
-  have fr1 : ∀ y, y ≠ 11 + 5 * j → (setVar env (11 + 5 * j) (mkPtr g.bs (g.baseS + (16 + 4 * j)), .pub))[y]? = env[y]? := fun y hy => get_set_ne _ _ _ _ (fun e => hy e.symm)
+  have fr1 : ∀ y, y ≠ t0 + 5 * j → (setVar env (t0 + 5 * j) (mkPtr g.bs (g.baseS + (16 + 4 * j)), .pub))[y]? = env[y]? := fun y hy => get_set_ne _ _ _ _ (fun e => hy e.symm)
   refine runs_seqs_append (Q := fun e' s' => e'.size = nv ∧ s'.mem = st.mem ∧ s'.ent = st.ent ∧
-      (∀ z, z ∉ [(11 + 1 + 5 * j, 4 * j + 3), (11 + 2 + 5 * j, 4 * j + 2), (11 + 3 + 5 * j, 4 * j + 1), (11 + 4 + 5 * j, 4 * j)].map Prod.fst →
-        e'[z]? = (setVar env (11 + 5 * j) (mkPtr g.bs (g.baseS + (16 + 4 * j)), .pub))[z]?) ∧
-      (∀ yo ∈ [(11 + 1 + 5 * j, 4 * j + 3), (11 + 2 + 5 * j, 4 * j + 2), (11 + 3 + 5 * j, 4 * j + 1), (11 + 4 + 5 * j, 4 * j)], EnvHas e' yo.1 (key.getD yo.2 0).toNat))
+      (∀ z, z ∉ [(t0 + 1 + 5 * j, 4 * j + 3), (t0 + 2 + 5 * j, 4 * j + 2), (t0 + 3 + 5 * j, 4 * j + 1), (t0 + 4 + 5 * j, 4 * j)].map Prod.fst →
+        e'[z]? = (setVar env (t0 + 5 * j) (mkPtr g.bs (g.baseS + (16 + 4 * j)), .pub))[z]?) ∧
+      (∀ yo ∈ [(t0 + 1 + 5 * j, 4 * j + 3), (t0 + 2 + 5 * j, 4 * j + 2), (t0 + 3 + 5 * j, 4 * j + 1), (t0 + 4 + 5 * j, 4 * j)], EnvHas e' yo.1 (key.getD yo.2 0).toNat))
       _ (by simp) _ (by simp [loadsOf]) _ _ ?_ ?_
   · refine (runs_loads dg.bd dg.based koff XD' key dg.hbd30 (by rw [hXDs]; exact dg.hlt) hd' _ _ st (by simp)
       (by rw [fr1 7 (by omega)]; exact h7) hmd ?_ ?_).weaken ?_
@@ -62,11 +62,11 @@ theorem key_word {g : AGeo} {M : Array Block} (dg : DGeo g M) {nv : Nat} {kws : 
     · intro sig e' s' ⟨h1, h2, h3, h4, h5, h6⟩
       exact ⟨h1, by rw [h2, size_setVar]; exact hes, h3, h4, h5, h6⟩
   · intro e2 s2 ⟨hsz2, hmm, hent, hfr2, hhas⟩
-    have nm : ∀ y, y < 11 + 5 * j + 1 → y ∉ [(11 + 1 + 5 * j, 4 * j + 3), (11 + 2 + 5 * j, 4 * j + 2), (11 + 3 + 5 * j, 4 * j + 1), (11 + 4 + 5 * j, 4 * j)].map Prod.fst := by
+    have nm : ∀ y, y < t0 + 5 * j + 1 → y ∉ [(t0 + 1 + 5 * j, 4 * j + 3), (t0 + 2 + 5 * j, 4 * j + 2), (t0 + 3 + 5 * j, 4 * j + 1), (t0 + 4 + 5 * j, 4 * j)].map Prod.fst := by
       intro y hy; simp only [List.map_cons, List.map_nil, List.mem_cons, List.mem_nil_iff, or_false]; omega
-    have e2t : e2[11 + 5 * j]? = some (mkPtr g.bs (g.baseS + (16 + 4 * j)), .pub) := by rw [hfr2 _ (nm _ (by omega))]; exact get_set_eq _ _ _ (by omega)
-    have hv := (evalD_e32 (hhas (11 + 1 + 5 * j, 4 * j + 3) (by simp)) (hhas (11 + 2 + 5 * j, 4 * j + 2) (by simp)) (hhas (11 + 3 + 5 * j, 4 * j + 1) (by simp))
-      (hhas (11 + 4 + 5 * j, 4 * j) (by simp))).un .bnot .u32
+    have e2t : e2[t0 + 5 * j]? = some (mkPtr g.bs (g.baseS + (16 + 4 * j)), .pub) := by rw [hfr2 _ (nm _ (by omega))]; exact get_set_eq _ _ _ (by omega)
+    have hv := (evalD_e32 (hhas (t0 + 1 + 5 * j, 4 * j + 3) (by simp)) (hhas (t0 + 2 + 5 * j, 4 * j + 2) (by simp)) (hhas (t0 + 3 + 5 * j, 4 * j + 1) (by simp))
+      (hhas (t0 + 4 + 5 * j, 4 * j) (by simp))).un .bnot .u32
     rw [unVal_bnot_u32] at hv
     have hlk : load32 (key.getD (4 * j) 0) (key.getD (4 * j + 1) 0) (key.getD (4 * j + 2) 0) (key.getD (4 * j + 3) 0) = loadAt key (4 * j) := rfl
     rw [hlk] at hv
@@ -74,7 +74,7 @@ theorem key_word {g : AGeo} {M : Array Block} (dg : DGeo g M) {nv : Nat} {kws : 
     generalize (~~~ loadAt key (4 * j)) = kw at hv hkj
     obtain ⟨lr, hev, hlr⟩ := hv
     have hm2 : s2.mem[g.bs]? = some ⟨X, g.baseS⟩ := by rw [hmm]; exact hm
-    show RunsTo g.prog (.store .u32 (.var (11 + 5 * j)) _) e2 s2 _
+    show RunsTo g.prog (.store .u32 (.var (t0 + 5 * j)) _) e2 s2 _
     refine runs_store (mkPtr g.bs (g.baseS + (16 + 4 * j))) _ g.bs (16 + 4 * j) 4 lr rfl (by simp only [evalE, e2t, reduceCtorEq, if_false]) hev
       (resolve_word hm2 (16 + 4 * j) (by omega) (by omega) (by omega)) ?_
     rw [blockBytes_of hm2]
@@ -102,18 +102,18 @@ theorem seqs_cons_ne (a : Stmt) (l : List Stmt) (h : l ≠ []) : seqs (a :: l) =
 /-- all key words, then the rest of the function -/
 theorem key_words {g : AGeo} {M : Array Block} (dg : DGeo g M) {nv : Nat} {kws : List UInt32} {env0 : Env} (koff : Nat) (key : Bytes)
     (hd : BytesV dg.XD koff key) (hklen : key.length = 4 * g.nk) (hk : ∀ i, i < g.nk → kws[i]? = some (~~~ loadAt key (4 * i)))
-    (he8 : env0[8]? = some (mkPtr g.bs g.baseS, .pub)) (he7 : env0[7]? = some (mkPtr dg.bd (dg.based + koff), .pub))
-    (hnv : 11 + 5 * g.nk ≤ nv) (rest : List Stmt) (hrest : rest ≠ []) {Q : Sig → Env → St → Prop} :
-    ∀ (n j : Nat), j + n = g.nk → ∀ (env : Env) (st : St), KI g M nv kws env0 j env st →
-      (∀ e s, KI g M nv kws env0 g.nk e s → RunsTo g.prog (seqs rest) e s Q) →
-      RunsTo g.prog (seqs ((List.range' j n).map (keyWordStmt 8 11) ++ rest)) env st Q
+    {sv t0 : Nat} (hsv : sv < t0) (h7t : 7 < t0) (he8 : env0[sv]? = some (mkPtr g.bs g.baseS, .pub)) (he7 : env0[7]? = some (mkPtr dg.bd (dg.based + koff), .pub))
+    (hnv : t0 + 5 * g.nk ≤ nv) (rest : List Stmt) (hrest : rest ≠ []) {Q : Sig → Env → St → Prop} :
+    ∀ (n j : Nat), j + n = g.nk → ∀ (env : Env) (st : St), KI g M nv kws env0 t0 j env st →
+      (∀ e s, KI g M nv kws env0 t0 g.nk e s → RunsTo g.prog (seqs rest) e s Q) →
+      RunsTo g.prog (seqs ((List.range' j n).map (keyWordStmt sv t0) ++ rest)) env st Q
   | 0, j, hjn, env, st, ki, hQ => by
     have : j = g.nk := by omega
     subst this
     simpa using hQ env st ki
   | n + 1, j, hjn, env, st, ki, hQ => by
     rw [List.range'_succ, List.map_cons, List.cons_append, seqs_cons_ne _ _ (by simp [hrest])]
-    exact runs_seq (key_word dg koff key hd hklen hk he8 he7 j (by omega) hnv ki) (fun e s ki' => key_words dg koff key hd hklen hk he8 he7 hnv rest hrest n (j + 1) (by omega) e s ki' hQ)
+    exact runs_seq (key_word dg koff key hd hklen hk hsv h7t he8 he7 j (by omega) hnv ki) (fun e s ki' => key_words dg koff key hd hklen hk hsv h7t he8 he7 hnv rest hrest n (j + 1) (by omega) e s ki' hQ)
 
 /-- `*clen = mlen + 8` -/
 theorem clen_store {prog : Program} {env : Env} {st : St} (bl basel ol : Nat) (XL : Array LByte) (n : Nat)
